@@ -137,6 +137,12 @@ where
             StreamsBlockedFrame::Uni(max) => (Dir::Uni, max.into_u64()),
         };
         if let Some(max_streams) = self.ctrl.on_streams_blocked(dir, max_streams) {
+            // a limit once advertised is never taken back (a stale or hostile STREAMS_BLOCKED must not
+            // lower it) and never exceeds what a stream id can express
+            let max_streams = max_streams.min(crate::sid::MAX_STREAMS_LIMIT);
+            if max_streams <= self.max[dir as usize] {
+                return;
+            }
             self.max[dir as usize] = max_streams;
             self.max_tx.send_frame([MaxStreamsFrame::with(
                 dir,
